@@ -29,6 +29,8 @@ def formula_set(tier):
     fs = list(F.F(2, U, B, [(F.PX, F.PY, F.X)]))
     X, Y = F.X, F.Y
     ar = [('neg', X), ('abs', X), ('sqrt', X), ('exp', X), ('ln', X), ('pow', X, Y), ('log', X, Y), ('+', X, Y), ('-', X, Y), ('*', X, Y), ('/', X, Y)]
+    ar += [('*', F.C2, X), ('+', F.C1, X), ('-', F.C2, Y)]           # constants as left operands
+    fs += [('pred', '<=', F.C1, X), ('until', (0, 1), ('pred', '<=', F.C1, X), F.PY)]
     for t in ar:
         a = ('pred', '>=', t, F.C0)
         fs += [a, ('once', (0, 1), a), ('not', a), ('eventually', (0, 1), a), t]
@@ -42,7 +44,7 @@ def shards(tier):
 
 
 PLANS = (('dt_off', False), ('dt_on', False), ('dt_on', True), ('ct_off', False), ('ct_on', False), ('ct_on', True))
-SHAPES = ('plain', 'unused_declared_with_data', 'unused_declared_no_data', 'undeclared_supplied', 'reversed')
+SHAPES = ('plain', 'unused_declared_with_data', 'unused_declared_no_data', 'undeclared_supplied', 'reversed', 'reevaluate_shorter')
 
 
 def supported(f, kind, pastify):
@@ -92,6 +94,12 @@ def run_case(case):
         data_vars = data_vars[::-1]
     w = {v: [vals[(i + j) % 3] for i in range(n)] for j, v in enumerate(data_vars)}
     if kind == 'dt_off':
+        if shape == 'reevaluate_shorter':
+            # the same object first sees a longer data set (legal: the offline monitors are re-usable)
+            wl = {v: [vals[(i + j) % 3] for i in range(n + 3)] for j, v in enumerate(data_vars)}
+            k, r = impl.outcome(impl.dt_evaluate, spec, wl)
+            if k != 'ok':
+                return k, r, 'evaluate'
         k, r = impl.outcome(impl.dt_evaluate, spec, w)
         return k, r, 'evaluate'
     if kind == 'dt_on':
@@ -102,6 +110,11 @@ def run_case(case):
         return 'ok', r, 'update'
     sig = kinds.grid_signal(w)
     if kind == 'ct_off':
+        if shape == 'reevaluate_shorter':
+            wl = {v: [vals[(i + j) % 3] for i in range(n + 3)] for j, v in enumerate(data_vars)}
+            k, r = impl.outcome(impl.ct_evaluate, spec, kinds.grid_signal(wl))
+            if k != 'ok':
+                return k, r, 'evaluate'
         k, r = impl.outcome(impl.ct_evaluate, spec, sig)
         return k, r, 'evaluate'
     for i in range(n):
